@@ -245,3 +245,58 @@ func VerifH_TTLRemoveAfterGetRace() {
 	symx.Assert(e3 != nil, "consumed afterwards")
 	symx.Reach("end")
 }
+
+// C05/H2b: two callers racing on one key, every interleaving, race monitor: two set-if-absent on a key
+// that was never set (or whose ttl has elapsed): exactly one succeeds and its value is the one served
+// afterwards; a set-if-absent racing a remove-after-get of a live key: the outcomes are those of one of
+// the two orders.
+func VerifH_TTLSetRaces() {
+	ctx := context.Background()
+	now = func() int64 { return 100 }
+	c := NewTTLMemCache(2, 0)
+	va, vb := symx.Uint8("va"), symx.Uint8("vb")
+	elapsed := symx.Bool("keyElapsed")
+	if elapsed {
+		now = func() int64 { return 10 }
+		symx.Assert(c.Set(ctx, "k", []byte{0}, WithTTL(5)) == nil, "Set")
+		now = func() int64 { return 100 } // deadline 15 has passed, the node is still in the table
+	}
+	var e1, e2 error
+	var g2 []byte
+	scenario := symx.Concrete(symx.Int("scenario"), 0, 1)
+	if scenario == 1 {
+		symx.Assume(!elapsed)
+		symx.Assert(c.Set(ctx, "k", []byte{7}) == nil, "Set")
+	}
+	symx.Go("A", func() { e1 = c.Set(ctx, "k", []byte{va}, WithMustNotExist()) })
+	symx.Go("B", func() {
+		if scenario == 0 {
+			e2 = c.Set(ctx, "k", []byte{vb}, WithMustNotExist())
+		} else {
+			g2, e2 = c.Get(ctx, "k", WithRemoveAfterGet())
+		}
+	})
+	symx.WaitQuiescent()
+	symx.Assert(symx.OthersDone(), "both callers return")
+	g, e3 := c.Get(ctx, "k")
+	if scenario == 0 {
+		symx.Assert((e1 == nil) != (e2 == nil), "of two racing set-if-absent on an absent key exactly one succeeds")
+		symx.Assert(e3 == nil && len(g) == 1, "and the key is served afterwards")
+		if e3 == nil && len(g) == 1 {
+			if e1 == nil {
+				symx.Assert(g[0] == va, "with the winner's value")
+			} else {
+				symx.Assert(g[0] == vb, "with the winner's value")
+			}
+		}
+	} else {
+		// order A;B: A refused (key live), B consumes 7, key gone. order B;A: B consumes 7, A succeeds, key = va.
+		symx.Assert(e2 == nil && len(g2) == 1 && g2[0] == 7, "the one-shot read gets the live value in either order")
+		if e1 == nil {
+			symx.Assert(e3 == nil && len(g) == 1 && g[0] == va, "set-if-absent after the consuming read: its value is served")
+		} else {
+			symx.Assert(e3 != nil, "set-if-absent refused while the key was live: the key is consumed afterwards")
+		}
+	}
+	symx.Reach("end")
+}
